@@ -157,7 +157,7 @@ M("C16-R2-hex-octal", "C16", [(F, 'Ok(val) => Variant::from_string(&format!("{:x
 M("C16-R2-dow-monday", "C16", [(F, "date.0.weekday().number_from_sunday()", "date.0.weekday().number_from_monday()")], ["primitive_DayOfWeek"])
 M("C16-R2-least-max", "C16", [(F, "least = least.min(val);", "least = least.max(val);")], ["primitive_Least"])
 M("C16-R2-replace-swapped", "C16", [(F, "let from = &function_args[0];\n            let to = &function_args[1];", "let from = &function_args[1];\n            let to = &function_args[0];")], ["operand_Replace"])
-M("C16-R2-substr-zero-based", "C16", [(F, "false => *&function_args[0].parse::<i32>().unwrap() - 1,", "false => *&function_args[0].parse::<i32>().unwrap(),")], ["operand_Substring"])
+M("C16-R2-substr-zero-based", "C16", [(F, "Ok(pos) => pos.saturating_sub(1),", "Ok(pos) => pos,")], ["operand_Substring"])
 M("C16-R2-month-year", "C16", [(F, "Ok(date) => Variant::from_int(date.0.month() as i64),", "Ok(date) => Variant::from_int(date.0.year() as i64),")], ["primitive_Month"])
 M("C16-R4-arg-not-evaluated", "C16", [(S, "                    let arg_value =\n                        self.get_column_expr_value(entry, file_info, file_map, buffer_data, arg);\n                    function_args.push(arg_value.to_string());", "                    function_args.push(arg.to_string());")], ["composition"])
 
